@@ -27,11 +27,13 @@ Steady-state initialisation stays off.
 import json
 import math
 import random
+import signal
+import threading
 
 from harness import core
 
 PREFIX = 'S__'          # one sector 'S' in one country: full names are S__<local>
-TAGS = ('block', 'model')
+CASE_LIMIT_S = 20     # wall-clock limit for one execution of the code under test
 
 
 # --------------------------------------------------------------------------------------
@@ -349,10 +351,40 @@ def execute_model(cfg, dress, fseed):
     return [pe, se], text
 
 
+class _Hang(BaseException):
+    pass
+
+
+def _limited(fn, seconds):
+    """Run fn() under a wall-clock limit.  The timer keeps firing: the code under test has bare `except:`
+    clauses that can swallow one delivery."""
+    if threading.current_thread() is not threading.main_thread():
+        return fn()
+
+    def handler(signum, frame):
+        raise _Hang()
+    old = signal.signal(signal.SIGALRM, handler)
+    signal.setitimer(signal.ITIMER_REAL, seconds, 0.05)
+    try:
+        return fn()
+    finally:
+        signal.setitimer(signal.ITIMER_REAL, 0)
+        signal.signal(signal.SIGALRM, old)
+
+
 def execute(case):
-    if case['api'] == 'model':
-        return execute_model(case['cfg'], case['dress'], case['fseed'])
-    return execute_block(case['cfg'], case['dress'], case['fseed'])
+    """-> (events, text).  A run that does not come back within CASE_LIMIT_S is recorded as raised 'Hang'
+    (bounded work is C11's subject; here it only must not stall the check)."""
+    def go():
+        if case['api'] == 'model':
+            return execute_model(case['cfg'], case['dress'], case['fseed'])
+        return execute_block(case['cfg'], case['dress'], case['fseed'])
+    try:
+        return _limited(go, CASE_LIMIT_S)
+    except _Hang:
+        pe = {'ev': 'Parse', 'cfg': case['cfg'], 'api': case['api'], 'dress': case['dress'], 'ok': False,
+              'exc': 'Hang', 'classes': [], 'maxtime': 0}
+        return [pe, _no_solve('Hang', case['dress'])], '(no answer within %d s)' % CASE_LIMIT_S
 
 
 # --------------------------------------------------------------------------------------
